@@ -688,6 +688,44 @@ class Executor:
                             ctx.fail("I3-alias-lookup", f"{dotted}.{n0}: dotted/tuple/item/chained lookups through the alias disagree or carry the wrong path")
                             return False
                         ctx.probe("lookups-through-alias")
+                    if t is not None and not t.is_alias and t.kind.value == "class" and t.bases:
+                        # (3) inherited members seen through the alias follow the *current* members of the base classes
+                        tnode = next((n for pp, n in m.walk() if n.uid == self.uids.get(id(t))), None)
+                        tpath = next((list(pp) for pp, n in m.walk() if n.uid == self.uids.get(id(t))), None)
+                        if tnode is not None and tpath is not None and not self._broken_inheritance_on_path(tpath):
+                            base_node, why = m.lookup(str(t.bases[0]).split("."))
+                            if base_node is not None and base_node.kind == "class":
+                                own = set(tnode.children)
+                                for n1, child in base_node.children.items():
+                                    if n1 in own:
+                                        continue
+                                    want1 = self.objs.get(child.uid)
+                                    try:
+                                        got = [coll[f"{dotted}.{n1}"], coll[(*p, n1)], coll[dotted][n1]]
+                                        finals = [(v.target if v.is_alias else v) for v in got]
+                                        finals = [(f.target if f.is_alias and f.inherited else f) for f in finals]
+                                    except Exception as e:  # noqa: BLE001
+                                        ctx.fail("I3-inherited-lookup", f"{dotted}.{n1}: inherited member of the target's base is not reachable through the alias: {type(e).__name__}: {e}", exc=e)
+                                        return False
+                                    if not all(f is want1 for f in finals):
+                                        ctx.fail("I3-inherited-lookup", f"{dotted}.{n1}: lookup through the alias does not lead to the base class's current member")
+                                        return False
+                                for gone in ("a", "b", "c"):
+                                    if gone not in own and gone not in base_node.children and not any(gone in bn.children for bn in [base_node]):
+                                        bb = self.objs.get(base_node.uid)
+                                        if getattr(bb, "bases", None):
+                                            continue  # deeper inheritance: not modelled here
+                                        try:
+                                            coll[f"{dotted}.{gone}"]
+                                        except KeyError:
+                                            pass
+                                        except Exception as e:  # noqa: BLE001
+                                            ctx.fail("I3-inherited-lookup", f"{dotted}.{gone}: absent name through the alias raised {type(e).__name__}", exc=e)
+                                            return False
+                                        else:
+                                            ctx.fail("I3-inherited-lookup", f"{dotted}.{gone}: a name that neither the class nor its base has (any longer) is still found through the alias")
+                                            return False
+                                ctx.probe("inherited-lookups-through-alias")
                     if t is not None and t.is_alias:
                         # the target is itself an alias: its `aliases` is a proxy for whatever it resolves to now
                         ctx.probe("alias-targets-alias")
